@@ -79,6 +79,18 @@ Theorem dotnet_recursion_guarded : forall f es, chain dotnet_depth_calls f f es 
 Proof. exact dotnet_recursion_guarded_l. Qed.
 Print Assumptions dotnet_recursion_guarded.
 
+(* elf.c module_load: in each of the four (class, byte order) branches, what the branch demands of the block size covers the
+   type the block is cast to and the header type of the parser it calls, and the parser is the one for that class and byte order
+   (branches regenerated from the source, sizes evaluated by the C compiler) *)
+Theorem elf_header_guards_match : forall cls dat demanded cast phdr bits be block_size,
+  In (cls, dat, demanded, cast, phdr, bits, be) elf_header_branches ->
+  demanded < block_size ->
+  cast <= block_size /\ phdr <= block_size /\ cast = phdr /\
+  (cls = ELF_CLASS_32 -> bits = 32) /\ (cls = ELF_CLASS_64 -> bits = 64) /\
+  (dat = ELF_DATA_2LSB -> be = 0) /\ (dat = ELF_DATA_2MSB -> be = 1).
+Proof. exact elf_header_guards_match_l. Qed.
+Print Assumptions elf_header_guards_match.
+
 Theorem rva_to_offset_in_range : forall pe secs rva off,
   0 <= pe_data_size pe <= 9223372036854775807 ->
   pe_rva_to_offset pe secs rva = ROffset off -> 0 <= off < pe_data_size pe.
